@@ -1566,8 +1566,8 @@ class slc(exp):
         if self.x._is_mem and self.size % 8 == 0:
             off, rst = divmod(self.pos, 8)
             if rst == 0:
-                a = ptr(self.x.a.base, self.x.a.seg, self.x.a.disp + off)
-                res = mem(a, self.size)
+                # mem.__getitem__ knows the byte order and keeps mods/endian:
+                res = self.x[self.pos : self.pos + self.size]
                 res.sf = self.sf
                 return res
         if self.x._is_eqn and (
